@@ -1,4 +1,22 @@
-"""C16  Word-id list encoding round-trips and substring search means sub-list."""
+"""C16  Word-id list encoding round-trips and substring search means sub-list.
+
+Later-call / aliasing probes (`decm`, `wordsm`, `encm`; asked of the model as plain `dec` / `enc`): every list a call
+hands out belongs to the caller - it is mutated (sort, reverse, pop, clear, append, extend, item / slice assignment,
+`*=`, insert) and the call repeated (same code; through `BaseIndex.get_words` of the same document and of a twin
+document with the same words, followed by unindex_doc, which diffs against get_words); lists handed IN to `encode`
+(list / tuple / iterator) must come back unchanged, the result must be a `str`, and the SAME list object changed by
+its owner must be encoded afresh.  On top, every list any call of the session returned is kept with a snapshot and
+re-compared after every later call.
+Prefix-related pairs are also placed at the very END / START of a document with a last continuation byte that
+regular expressions, str methods, C strings or format strings treat specially (0x0A for `$`, 0x0D, NUL, backslash,
+`$`, `.`, ...), phrase ending in the short id; and the true hits of the same shape.
+
+Seeded C16_F (decode behind functools.lru_cache: the same list object for equal codes) was missed before and is
+caught now; C16_E (regex `$` accepts a hit before a trailing 0x0A) was caught on some runs only, now on quick seeds
+0-5.  Two more of the aliasing class, both VIOLATION on quick seed 0:
+  a  decode() refills and returns one module-level list (`del _buf[:]; _buf.extend(...); return _buf`)
+  b  encode() remembers the last list it was given BY IDENTITY and returns the remembered code for it
+"""
 import random
 
 from lib.core import exc_name
@@ -15,7 +33,18 @@ RULE = ("cases are sessions of enc/dec/find/rt/digest commands over word ids dra
         "boundaries (2^7, 2^14, 2^21, 2^28-1, +-3), prefix-related id pairs and uniform ids; thorough adds "
         "every id in [0,2^28) in 256 ranges (digest of the concatenated code mod 2^61-1, length, and "
         "decode(encode(range)) == range on the implementation); non-trivial = the case contains an id of "
-        "at least two different code lengths or a find whose phrase has a prefix-related id in the document")
+        "at least two different code lengths or a find whose phrase has a prefix-related id in the document; "
+        "30% of the cases start with 2-5 aliasing probes over a pool of re-used id lists: decm (decode, mutate the "
+        "returned list with one of 12 list operations, decode the same code again), wordsm (two documents with the "
+        "same words in a real OkapiIndex: get_words, mutate, get_words of the same / the twin / both, then "
+        "unindex_doc and search every word), encm (encode a list / tuple / iterator: result type, argument "
+        "unchanged, the same list object changed by its owner encoded again); every list any call returned is "
+        "re-compared with its snapshot after each later call; 14% of the other commands are finds with a "
+        "prefix-related pair at the very end / start / middle of the document whose last continuation byte is one of "
+        "30 special ones. Measured quick seed 0 (1605 cases, 11695 commands): decm 641, wordsm 332 (same 90, twin 115, "
+        "both 127), encm 262 (list 124, tuple 62, iterator 76), the same code decoded again after a mutation 242; "
+        "finds 4943, raw hit inside a longer id 1515, inside the LAST id of the document 695 (last byte special 592, "
+        "the single byte 0x0A left 57), inside the FIRST id 447, true hit at the end with a special last byte 384")
 TRUSTED = ["phrase scan observed through OkapiIndex.search_phrase with a stub lexicon that maps text to the "
            "given word ids (the lexicon is a constructor argument of the index)"]
 P61 = (1 << 61) - 1
@@ -57,8 +86,135 @@ def related(rng, w):
     return x if 0 < x < 0x10000000 else w
 
 
+MUTS = ["sort", "rsort", "reverse", "pop", "pop0", "clear", "append", "extend", "set0", "delslice", "imul",
+        "insert"]
+
+
+def apply_mut(mut, lst):
+    """what a caller may do to a list it owns (in place; deterministic, shared by both sides of the comparison)"""
+    if mut == "sort":
+        lst.sort()
+    elif mut == "rsort":
+        lst.sort(reverse=True)
+    elif mut == "reverse":
+        lst.reverse()
+    elif mut == "pop":
+        if lst:
+            lst.pop()
+    elif mut == "pop0":
+        if lst:
+            lst.pop(0)
+    elif mut == "clear":
+        del lst[:]
+    elif mut == "append":
+        lst.append(77)
+    elif mut == "extend":
+        lst.extend([5, 300, 20000])
+    elif mut == "set0":
+        if lst:
+            lst[0] = (lst[0] + 1) % 0x80 or 1
+    elif mut == "delslice":
+        del lst[1:]
+    elif mut == "imul":
+        lst *= 2
+    elif mut == "insert":
+        lst.insert(len(lst) // 2, 1)
+    else:
+        raise ValueError(mut)
+
+
+def effective(mut, ws):
+    l = list(ws)
+    apply_mut(mut, l)
+    return l != list(ws)
+
+
+def pick_mut(rng, ws):
+    good = [m for m in MUTS if effective(m, ws)]
+    return rng.choice(good or MUTS)
+
+
+# continuation bytes that regular expressions, str methods, C strings or format strings treat specially
+SPECIAL_BYTES = [0x0A, 0x0A, 0x0A, 0x0D, 0x00, 0x5C, 0x24, 0x2E, 0x5E, 0x2A, 0x2B, 0x3F, 0x28, 0x29, 0x5B, 0x5D, 0x7C,
+                 0x7B, 0x25, 0x20, 0x09, 0x0B, 0x0C, 0x1C, 0x1D, 0x1E, 0x1F, 0x7F, 0x22, 0x27]
+
+
+def gen_edge_find(rng):
+    """a prefix-related pair at the very END (or START, or middle) of a document: the phrase ends in a short id s,
+    the document has, right after the rest of the phrase, a longer id whose code is code(s) + one or two
+    continuation bytes, the last of them special somewhere ('\\n' for `$`, NUL, backslash, '.', ...); all phrase
+    ids occur elsewhere in the document too (the intersection pre-filter passes).  Also the true hits of the same
+    shape (the document really ends / starts with the phrase, whose last code byte is special)."""
+    s_id = rng.choice([1, 1, 2, 5, 0x7F, 0x80, 200, 0x3FFF, 0x4000, 20000, rng.randrange(1, 0x4000),
+                       rng.randrange(1, 0x200000)])
+    c = rng.choice(SPECIAL_BYTES)
+    long_id = s_id * 0x80 + c
+    if rng.random() < 0.2 and long_id * 0x80 < 0x10000000:
+        long_id = long_id * 0x80 + rng.choice(SPECIAL_BYTES)
+    if long_id >= 0x10000000 or long_id == 0:
+        s_id, long_id = 1, 0x80 + c
+    prefix = [max(1, rid(rng)) for _ in range(rng.choice([0, 1, 1, 2, 3]))]
+    phrase = prefix + [s_id]
+    filler = [max(1, rid(rng)) for _ in range(rng.randrange(0, 4))]
+    scattered = list(phrase)
+    if len(scattered) > 1:
+        scattered.reverse()                  # every phrase id is there, but not as the phrase
+    scattered.append(rng.choice([3, 300, 70000]))
+    m = rng.random()
+    if m < 0.2:
+        # true hit whose last byte is special: the phrase ends in the LONG id
+        phrase = prefix + [long_id]
+        tail = prefix + [long_id]
+        scattered = []
+    else:
+        tail = prefix + [long_id]
+    where = rng.choice(["end", "end", "end", "start", "middle", "only"])
+    if where == "end":
+        d = scattered + filler + tail
+    elif where == "start":
+        d = tail + filler + scattered
+    elif where == "only":
+        d = tail if m < 0.2 else tail + [s_id] * (len(prefix) > 0) + prefix[:1]
+        if m >= 0.2 and not prefix:
+            d = [long_id, 9, s_id] if rng.random() < 0.5 else [s_id, 9, long_id]
+    else:
+        d = scattered + tail + filler + [max(1, rid(rng))]
+    return ["find"] + phrase + ["|"] + d
+
+
+def gen_alias(rng, cmds):
+    """later-call / aliasing probes: every list a call hands out belongs to the caller, every list handed in stays
+    the caller's; the answers to later equal calls must not depend on what the caller did in between"""
+    pool = []
+    for _ in range(rng.randrange(2, 6)):
+        r = rng.random()
+        if pool and r < 0.45:
+            ws = list(rng.choice(pool))           # an equal list again (same code)
+        else:
+            ws = [rid(rng) for _ in range(rng.randrange(1, 9))]
+            if rng.random() < 0.5:
+                ws = [min(w, 0xFFFFFFF) for w in ws]
+            pool.append(ws)
+        r = rng.random()
+        if r < 0.4:
+            cmds.append(["decm", pick_mut(rng, ws)] + encode_ref(ws, None))
+        elif r < 0.55:
+            cmds.append(["dec"] + encode_ref(ws, None))
+        elif r < 0.75:
+            d = [max(1, w) for w in ws]
+            cmds.append(["wordsm", pick_mut(rng, d), rng.choice(["same", "twin", "both"])] + d)
+        elif r < 0.9:
+            cmds.append(["encm", pick_mut(rng, ws), rng.choice(["list", "list", "tuple", "iter"])] + ws)
+        else:
+            cmds.append(["enc"] + ws)
+
+
 def gen(rng, tier, idx):
     cmds = []
+    if rng.random() < 0.3:
+        gen_alias(rng, cmds)
+        if rng.random() < 0.5:
+            return {"session": "widcode", "cmds": cmds}
     for _ in range(rng.randrange(4, 12)):
         r = rng.random()
         if r < 0.3:
@@ -69,6 +225,8 @@ def gen(rng, tier, idx):
         elif r < 0.5:
             ws = [rid(rng) for _ in range(rng.randrange(0, 12))]
             cmds.append(["dec"] + encode_ref(ws, rng))
+        elif r < 0.64:
+            cmds.append(gen_edge_find(rng))
         else:
             d = [max(1, rid(rng)) for _ in range(rng.randrange(0, 10))]
             if rng.random() < 0.5 and d:
@@ -100,7 +258,7 @@ def encode_ref(ws, rng):
     """bytes for a `dec` command: produced by the harness' own encoder (chunks of 1..4 bytes), plus
     occasionally stray continuation bytes in front, which findall skips"""
     out = []
-    if rng.random() < 0.1:
+    if rng is not None and rng.random() < 0.1:
         out += [rng.randrange(0x80) for _ in range(rng.randrange(1, 3))]
     for w in ws:
         if w < 0x80:
@@ -114,15 +272,90 @@ def encode_ref(ws, rng):
     return out
 
 
-def impl_exec(hyp, cmd):
+def model_cmd(c):
+    """the probes are asked of the model as plain enc / dec of what the property says the answer is"""
+    if c[0] == "decm":
+        return ["dec"] + list(c[2:])
+    if c[0] == "wordsm":
+        return ["dec"] + encode_ref(list(c[3:]), None)
+    if c[0] == "encm":
+        l = list(c[3:])
+        if c[2] == "list":
+            apply_mut(c[1], l)            # the SAME list object, changed by its owner, is encoded again
+        return ["enc"] + l
+    return c
+
+
+def _codes(s):
+    return " ".join(str(ord(ch)) for ch in s)
+
+
+def impl_exec(hyp, cmd, held=None):
     from hypatia.text import widcode
     from hypatia.text.okapiindex import OkapiIndex
     op = cmd[0]
+    held = held if held is not None else []
+    try:
+        if op == "decm":
+            code = "".join(chr(b) for b in cmd[2:])
+            first = widcode.decode(code)
+            if type(first) is not list:
+                return "decode returned %s" % type(first).__name__
+            snap = list(first)
+            apply_mut(cmd[1], first)                    # the caller owns what it was handed
+            second = widcode.decode(code)
+            held.append((second, list(second), "decode"))
+            if second is first:
+                return "same-object-again " + " ".join(str(w) for w in second)
+            if second != snap:
+                return "changed-by-caller's-%s: " % cmd[1] + " ".join(str(w) for w in second)
+            return " ".join(str(w) for w in second)
+        if op == "wordsm":
+            d = list(cmd[3:])
+            idx = OkapiIndex(StubLexicon())
+            idx.index_doc(1, list(d))
+            idx.index_doc(2, list(d))                   # a second document with the same words: same code
+            got = idx.get_words(1 if cmd[2] != "twin" else 2)
+            snap = list(got)
+            apply_mut(cmd[1], got)
+            a, b = idx.get_words(1), idx.get_words(2)
+            held.append((a, list(a), "get_words"))
+            if cmd[2] == "both":
+                apply_mut(cmd[1], b)
+                b = idx.get_words(2)
+            if a != b or a != snap:
+                return "get_words(1)=%r get_words(2)=%r first=%r" % (a, b, snap)
+            # the index's own use of the decoded list: unindexing diffs against get_words
+            idx.unindex_doc(1)
+            idx.unindex_doc(2)
+            left = [w for w in set(d) if idx.search([w]) is not None and len(idx.search([w]))]
+            if left:
+                return "postings-left-after-unindex %r" % sorted(left)
+            return " ".join(str(w) for w in a)
+        if op == "encm":
+            ws = list(cmd[3:])
+            arg = ws if cmd[2] == "list" else tuple(ws) if cmd[2] == "tuple" else iter(ws)
+            s1 = widcode.encode(arg)
+            if type(s1) is not str:
+                return "encode returned %s" % type(s1).__name__
+            if ws != list(cmd[3:]):
+                return "encode modified its argument: %r" % (ws,)
+            if cmd[2] != "list":
+                return _codes(s1)
+            apply_mut(cmd[1], ws)                       # the caller changes ITS list, then encodes it again
+            s2 = widcode.encode(ws)
+            if widcode.encode(list(cmd[3:])) != s1:
+                return "encode of an equal fresh list differs: " + _codes(widcode.encode(list(cmd[3:])))
+            return _codes(s2)
+    except Exception as e:
+        return exc_name(e)
     try:
         if op == "enc":
             return " ".join(str(ord(c)) for c in widcode.encode(list(cmd[1:])))
         if op == "dec":
-            return " ".join(str(w) for w in widcode.decode("".join(chr(b) for b in cmd[1:])))
+            r = widcode.decode("".join(chr(b) for b in cmd[1:]))
+            held.append((r, list(r), "decode"))
+            return " ".join(str(w) for w in r)
         if op in ("find",):
             k = cmd.index("|")
             p, d = list(cmd[1:k]), list(cmd[k + 1:])
@@ -149,7 +382,19 @@ def impl_exec(hyp, cmd):
 
 
 def impl_run(hyp, case):
-    return [impl_exec(hyp, c) for c in case["cmds"]]
+    """every list handed out earlier in the session is kept and must still hold what it held (a later call that
+    refills a shared buffer, or a cache that hands the caller's list to the next caller, shows here)"""
+    held = []
+    outs = []
+    for c in case["cmds"]:
+        o = impl_exec(hyp, c, held)
+        for obj, snap, what in held:
+            if obj != snap:
+                o = "earlier-%s-result-changed-by-later-call was=%r now=%r" % (what, snap, obj)
+                del held[:]
+                break
+        outs.append(o)
+    return outs
 
 
 def codelen(w):
@@ -160,7 +405,7 @@ def nontrivial(case, outs):
     lens = set()
     for c in case["cmds"]:
         for t in c[1:]:
-            if isinstance(t, int) and c[0] in ("enc", "find"):
+            if isinstance(t, int) and c[0] in ("enc", "find", "encm", "wordsm"):
                 lens.add(codelen(t))
         if c[0] in ("digest", "rt"):
             return True
@@ -169,10 +414,46 @@ def nontrivial(case, outs):
 
 def features(case, outs):
     f = []
+    seen = {}
     for c, o in zip(case["cmds"], outs):
         f.append("op:" + c[0])
+        if c[0] in ("decm", "wordsm", "encm"):
+            f.append("alias:%s:%s" % (c[0], c[1]))
+            ids = tuple(c[2:] if c[0] == "decm" else c[3:]) if c[0] != "wordsm" else tuple(encode_ref(list(c[3:]), None))
+            if c[0] != "encm":
+                if ids in seen:
+                    f.append("alias:same-code-decoded-again-after-mutation")
+                seen[ids] = 1
+            if c[0] == "wordsm":
+                f.append("alias:wordsm:" + c[2])
+            if c[0] == "encm":
+                f.append("alias:encm:" + c[2])
+        elif c[0] == "dec" and tuple(c[1:]) in seen:
+            f.append("alias:same-code-decoded-again-after-mutation")
         if c[0] == "find":
             f.append("find:" + o)
+            k = c.index("|")
+            ph, d = list(c[1:k]), list(c[k + 1:])
+            if ph and d:
+                pc, dc = encode_ref(ph, None), encode_ref(d, None)
+                n = len(pc)
+                for pos in range(len(dc) - n + 1):
+                    if dc[pos:pos + n] == pc and pos + n < len(dc) and dc[pos + n] < 0x80:
+                        nxt = dc[pos + n]
+                        rest = dc[pos + n:]
+                        at_end = all(b < 0x80 for b in rest)
+                        f.append("find:raw-hit-inside-a-longer-id")
+                        if at_end:
+                            f.append("find:raw-hit-inside-the-LAST-id")
+                            if rest[-1] in SPECIAL_BYTES:
+                                f.append("find:raw-hit-inside-the-LAST-id,last-byte-special")
+                            if rest == [0x0A]:
+                                f.append("find:raw-hit-then-single-0x0A-at-the-end")
+                        if pos == 0:
+                            f.append("find:raw-hit-inside-the-FIRST-id")
+                        break
+                if dc[-1] in SPECIAL_BYTES and o == "1" and dc[-n:] == pc:
+                    f.append("find:true-hit-at-the-end,last-byte-special")
         if o.startswith("err"):
             f.append(o)
         for t in c[1:]:
